@@ -175,4 +175,33 @@ Section PmlLoop.
       intros m Hm. destruct m as [|m]; [exact A3 | apply I5; cbn in Hm; lia].
   Qed.
   End LoopLinear.
+
+  (* ---- the CPML loop respects pointwise equality of its inputs, also across scenes that share the layer list ---- *)
+  Definition eqAx (x y : A3 K) : Prop := forall i j k, x i j k = y i j k.
+  Definition eqVx (x y : V3 K) : Prop := eqAx (vx x) (vx y) /\ eqAx (vy x) (vy y) /\ eqAx (vz x) (vz y).
+  Definition eqPx (x y : psi_t K) : Prop := eqAx (fst x) (fst y) /\ eqAx (snd x) (snd y).
+  Lemma pml_loop_ext isE sim (ds ds' : nat -> A3 K * A3 K) :
+    (forall n, eqAx (fst (ds' n)) (fst (ds n)) /\ eqAx (snd (ds' n)) (snd (ds n))) ->
+    forall ps q q' c c', Forall2 eqPx q' q -> eqVx c' c ->
+    eqVx (fst (pml_loop K isE sim ps q' ds' c')) (fst (pml_loop K isE sim ps q ds c)) /\
+    Forall2 eqPx (snd (pml_loop K isE sim ps q' ds' c')) (snd (pml_loop K isE sim ps q ds c)).
+  Proof.
+    intros Hd. induction ps as [|p ps IH]; intros q q' c c' HQ Hc.
+    - cbn. split; assumption.
+    - destruct HQ as [|s' s q0' q0 Hs HQ']; [cbn; split; [assumption | constructor]|]. cbn [pml_loop].
+      destruct (Hd (p_axis K p)) as [D1 D2]. destruct (ds (p_axis K p)) as [d1 d2]. destruct (ds' (p_axis K p)) as [d1' d2']. cbn [fst snd] in D1, D2.
+      assert (A: eqAx (fst (fst (pml_apply K isE sim p d1' d2' s'))) (fst (fst (pml_apply K isE sim p d1 d2 s))) /\
+                 eqAx (snd (fst (pml_apply K isE sim p d1' d2' s'))) (snd (fst (pml_apply K isE sim p d1 d2 s))) /\
+                 eqPx (snd (pml_apply K isE sim p d1' d2' s')) (snd (pml_apply K isE sim p d1 d2 s))).
+      { destruct Hs as [S1 S2]. unfold pml_apply; cbn [fst snd]. repeat split; intros i j k; cbn [fst snd]; rewrite ?(D1 i j k), ?(D2 i j k), ?(S1 i j k), ?(S2 i j k); reflexivity. }
+      destruct A as (A1 & A2 & A3).
+      destruct (pml_apply K isE sim p d1 d2 s) as [[k1 k2] t]. destruct (pml_apply K isE sim p d1' d2' s') as [[k1' k2'] t']. cbn [fst snd] in A1, A2, A3.
+      assert (AC: eqVx (add_corr K (p_axis K p) c' k1' k2') (add_corr K (p_axis K p) c k1 k2)).
+      { destruct Hc as (X & Y & Z). unfold add_corr. destruct (p_axis K p) as [|[|ax]]; unfold eqVx; cbn [vx vy vz];
+          repeat split; intros i j k; rewrite ?(X i j k), ?(Y i j k), ?(Z i j k), ?(A1 i j k), ?(A2 i j k); reflexivity. }
+      destruct (IH q0 q0' _ _ HQ' AC) as [R1 R2].
+      destruct (pml_loop K isE sim ps q0 ds (add_corr K (p_axis K p) c k1 k2)) as [r rest].
+      destruct (pml_loop K isE sim ps q0' ds' (add_corr K (p_axis K p) c' k1' k2')) as [r' rest']. cbn [fst snd] in *.
+      split; [exact R1 | constructor; assumption].
+  Qed.
 End PmlLoop.
